@@ -563,6 +563,10 @@ func (t *tab) renderTotal() {
 					}
 					return nil, false
 				}
+				in.Hooks.Store = func(in *absint.Interp, pv absint.Val, v absint.Val, site ssa.Instruction) bool {
+					_, isSym := pv.(*absint.Sym)
+					return isSym // writes into a buffer of abstract length
+				}
 				in.Hooks.Branch = func(in *absint.Interp, cond absint.Val, site ssa.Instruction) (bool, bool) {
 					k := absint.Key(cond)
 					if strings.Contains(k, "len(") && strings.HasPrefix(k, "<(") {
